@@ -102,7 +102,7 @@ def h_tm(w):
     ops = {
         'a + b': ([a, b], lambda: a + b), 'a - b': ([a, b], lambda: a - b), 'a @ b': ([a, b], lambda: a @ b), 'a * b': ([a, b], lambda: a * b),
         'a + k': ([a], lambda: a + k), 'a - k': ([a], lambda: a - k), 'a * k': ([a], lambda: a * k), 'k * a': ([a], lambda: k * a),
-        'a / k': ([a], lambda: a / k), 'a // k': ([a], lambda: a // k), 'abs(a)': ([a], lambda: abs(a)),
+        'a / k': ([a], lambda: a / k), 'abs(a)': ([a], lambda: abs(a)),
         'a + array6': ([a, v6], lambda: a + v6), 'a - array6': ([a, v6], lambda: a - v6), 'a @ matrix': ([a, M4], lambda: a @ M4),
         'a.inv()': ([a], lambda: a.inv()), 'a.copy()': ([a], lambda: a.copy()), 'tm(a)': ([a], lambda: tm(a)), 'a.T()': ([a], lambda: a.T()),
         'a.gTM()': ([a], lambda: a.gTM()), 'a.gTAA()': ([a], lambda: a.gTAA()), 'a.gRot()': ([a], lambda: a.gRot()), 'a.gPos()': ([a], lambda: a.gPos()),
@@ -110,9 +110,13 @@ def h_tm(w):
         'tm(matrix)': ([M4], lambda: tm(M4)), 'tm(array6)': ([v6], lambda: tm(v6)),
         'localToGlobal(a, b)': ([a, b], lambda: bh.localToGlobal(a, b)), 'globalToLocal(a, b)': ([a, b], lambda: bh.globalToLocal(a, b)),
     }
-    for label in w.params.get('ops', sorted(ops)):
+    labels = sorted(ops)
+    grp, ngrp = w.params.get('group', 0), w.params.get('ngroups', 1)
+    for label in labels[grp::ngrp]:
         operands, fn = ops[label]
         check(w, label, operands, fn)
+    if grp != 0:
+        return
     # mutating a copy never reaches the source
     for label, mk in (('copy()', lambda: a.copy()), ('tm(a)', lambda: tm(a)), ('a @ identity', lambda: a @ tm())):
         before = fingerprint(w, a)
@@ -183,10 +187,14 @@ def h_helpers(w):
         'twistFromTransform': ([a], lambda: fsr.twistFromTransform(a)), 'planeFromThreePoints': ([a, b, c], lambda: fsr.planeFromThreePoints(a, b, c)),
         'transformByVector': ([a, f3], lambda: fsr.transformByVector(a, f3)), 'getUnitVec': ([a, b], lambda: fsr.getUnitVec(a, b)),
     }
-    for label in sorted(ops):
+    labels = sorted(ops)
+    grp, ngrp = w.params.get('group', 0), w.params.get('ngroups', 1)
+    for label in labels[grp::ngrp]:
         operands, fn = ops[label]
         # helpers: operands unmodified is the claim; storage clause only for what they return as fresh values
         check(w, 'fsr.' + label, operands, fn, result_arrays=label not in ('IKPath', 'closeLinearGap', 'closeArcGap'))
+    if grp != 0:
+        return
     # lookAt only when the target is not vertically aligned
     dxy = (b[0] - a[0]) * (b[0] - a[0]) + (b[1] - a[1]) * (b[1] - a[1])
     w.assume(dxy >= w.const('1e-4'))
@@ -290,8 +298,12 @@ def h_mr(w):
 
 
 def cases(tier, seed):
-    cs = [Case('tm_ops', h_tm), Case('screw_ops', h_screw, params=dict(kind='screw')), Case('wrench_ops', h_screw, params=dict(kind='wrench')),
-          Case('helpers', h_helpers), Case('defaults', h_defaults), Case('mr_functions', h_mr)]
+    cs = [Case('screw_ops', h_screw, params=dict(kind='screw')), Case('wrench_ops', h_screw, params=dict(kind='wrench')),
+          Case('defaults', h_defaults), Case('mr_functions', h_mr)]
+    for g_ in range(7):
+        cs.append(Case('tm_ops_%d' % g_, h_tm, params=dict(group=g_, ngroups=7)))
+    for g_ in range(6):
+        cs.append(Case('helpers_%d' % g_, h_helpers, params=dict(group=g_, ngroups=6)))
     for arm, base in (('2R', 'I'), ('2R', 'B1'), ('3R', 'B2')):
         cs.append(Case('arm_constructor_%s_%s' % (arm, base), h_constructors, params=dict(arm=arm, base=base)))
     return cs
